@@ -28,7 +28,7 @@ IMG_NAME = {"radio": "radio_img", "application": "app-core.v2", "top": "nordic_t
 VARIANTS = ["minimal", "rich", "signed"]
 DEFAULT_NAMES = {"root": ("nordicsemi.com", "nRF54H20_sample_root"), "app": ("nordicsemi.com", "nRF54H20_sample_app"),
                  "rad": ("nordicsemi.com", "nRF54H20_sample_rad")}
-CUSTOM_NAMES = {"root": ("acme.example.org", "Root-Class_1"), "app": ("app.vendor", "app_class.A"), "rad": ("rad-vendor.io", "RAD_class")}
+CUSTOM_NAMES = {"root": ("ACME-Devices.example.org", "Root-Class_1"), "app": ("App.Vendor", "app_class.A"), "rad": ("rad-vendor.io", "RAD_class")}
 KCFG = {"root": "ROOT", "app": "APP_LOCAL_1", "rad": "RAD_LOCAL_1"}
 
 
@@ -177,15 +177,35 @@ def top_cases(tier):
     return out
 
 
+def reuse_cases(tier):
+    out = []
+    for imgs in (["radio"], ["application", "top"], ["radio", "application", "top"]):
+        for v1, v2 in (("minimal", "rich"), ("rich", "signed"), ("signed", "minimal")):
+            out.append({"tpl": "root", "imgs": imgs, "custom": [False, False, False], "ver": "none", "variants": [v2] * len(imgs), "before": [v1] * len(imgs)})
+    return out
+
+
 def run_template(case, agg):
     from ncs import build
     from suit_generator import cmd_create
     key = h8("c19", case)
+    if case.get("before") and not case.get("_second"):
+        # a first build in the same process and the SAME artifacts folder with other child envelopes; then the real one
+        with fresh_dir("c19shared") as shared:
+            first = dict(case, variants=case["before"], _second=True, _dir=shared)
+            tmp = type(agg)()
+            run_template(first, tmp)
+            if tmp.violations:
+                agg.violations += tmp.violations
+                return
+            run_template(dict(case, _second=True, _dir=shared), agg)
+        return
     label = f"{case['tpl']} template images={case['imgs']} custom-names(root,app,rad)={case['custom']} version={case['ver']} children={case['variants']}"
     names = {k: (CUSTOM_NAMES[k] if c else DEFAULT_NAMES[k]) for k, c in zip(("root", "app", "rad"), case["custom"])}
-    with fresh_dir("c19") as d:
+    import contextlib
+    with (contextlib.nullcontext(case["_dir"]) if case.get("_dir") else fresh_dir("c19")) as d:
         art = os.path.join(d, "artifacts") + os.sep
-        os.makedirs(art)
+        os.makedirs(art, exist_ok=True)
         # sysbuild configuration + one .config per image, consumed by the real read_configurations
         sb = os.path.join(d, "sysbuild.config")
         with open(sb, "w") as fh:
@@ -272,4 +292,5 @@ def plan(tier):
     return [
         CaseStage("root-template", lambda: root_cases(tier), run_template, disjoint=True, rule="image subsets x MPI names x version setting x child variants"),
         CaseStage("top-template", lambda: top_cases(tier), run_template, disjoint=True, rule="version setting x child variants"),
+        CaseStage("artifacts-folder-reused", lambda: reuse_cases(tier), run_template, rule="two consecutive builds in one process and one artifacts folder, children regenerated in between"),
     ]
